@@ -5,6 +5,10 @@ pub enum GEffect {
     CloseRx { chan: int },
     /// RequestCancellation::cancel(id): id pushed onto the dispatch's cancellation queue
     CancelMsg { id: u64 },
+    /// a DispatchRequest was handed to the dispatch's request queue
+    Enqueue { id: u64, chan: int, ctx: context::Context },
+    /// the caller awaited the receiver of channel `chan`
+    Await { chan: int },
 }
 pub tracked struct GFx { pub ghost log: Seq<GEffect> }
 
